@@ -42,7 +42,7 @@ CHECKS = {
              "segments; SpliceProv aligns every output byte with an inner byte or a replacement, and TLC checks file/line/name preservation, "
              "the content-conditioned column advance and replacement names. The implementation-shaped models ConcatM (final-source streaming "
              "of ConcatSource: offsets, need_to_close, last_mapping_line) and ReplaceM are model-checked by TLC against the same requirement "
-             "(the pre-repair variant of ConcatM is refuted) and the recorded final-mode streams of children and composite are compared "
+             "(the pre-repair variant of ConcatM is refuted); the composite's recorded normal-mode stream must attribute every byte as the children's own recorded streams do; and the recorded final-mode streams of children and composite are compared "
              "event by event with what the model emits (reported as MODEL-DRIFT, never as a violation).",
         note=COMMON_NOTE + " Where the recorded content does not equal the skipped text the column may lie anywhere between the segment column and the advanced column (the statement only says when it IS advanced).",
         technique="TLA+ attribution oracle + splice provenance + TLC trace validation",
@@ -74,7 +74,7 @@ CHECKS = {
     "C14": dict(
         text="Pairs built from the same constructor calls, pairs one edit apart and clones are compared (dyn and typed ==, hashes) before, between "
              "and after observer calls on one operand; TLC keeps the last answers per register and checks symmetry, stability, "
-             "equal => same hash and same answers, and repeatability of every observer.",
+             "equal => same hash and same answers, and repeatability of every observer. Equal call sequences on two ReplaceSources, one of them observed between the calls, must give equal values with equal answers (the state machine of the lazily sorted index is model-checked as IndexM).",
         note=COMMON_NOTE + " Known finding K1b (ReplaceSource over CachedSource: original columns change once the cache is filled).",
         technique="TLA+ object machine with remembered answers + TLC trace validation of histories",
     ),
@@ -132,13 +132,13 @@ CHECKS = {
         technique="TLA+ specification of the v3 VLQ format + TLC trace validation, exhaustive small scopes",
     ),
     "C13": dict(
-        text="Pairs (flat, regrouped/wrapped) are executed; TLC compares text and per-position (per-line) attribution of the two recorded map() answers.",
+        text="Pairs (flat, regrouped/wrapped) are executed; TLC compares text and per-position (per-line) attribution of the two recorded map() answers; sides containing a CachedSource (also in the middle of a tree, also the same wrapper twice) are asked twice.",
         note=COMMON_NOTE + " One known finding (K2: empty insertion inside a chunk refines the original column).",
         technique="TLA+ attribution oracle on law instances + TLC trace validation",
     ),
     "C05": dict(
         text="ReplaceSource histories (mutators interleaved with every observer) are replayed; TLC evolves the replacement list as the object "
-             "machine's state and compares each observer's answer with Splice (stable order by start,end,enforce,call order). ReplaceM (streaming of the sorted replacements) is model-checked against Splice on up to 135,845 inputs.",
+             "machine's state and compares each observer's answer with Splice (stable order by start,end,enforce,call order). ReplaceM (streaming of the sorted replacements) is model-checked against Splice on up to 135,845 inputs. IndexM models the lazily sorted index (replacements / sorted_index / is_sorted under push, observe, clone) and TLC checks that the order an observer reads is the stable order of the calls whatever the history; three shortcut variants are refuted.",
         note=COMMON_NOTE,
         technique="TLA+ object machine with reference splice + TLC trace validation of histories",
     ),
@@ -155,7 +155,7 @@ CHECKS = {
         technique="TLA+ source-map v3 decoder + stream protocol monitor + TLC trace validation",
     ),
     "C17": dict(
-        text="Every recorded call of every program (wild maps, multi-byte text, out-of-range replacements) must return normally; panics are "
+        text="Every recorded call of every program (wild maps, multi-byte text, out-of-range replacements; streams, maps and the content views source / rope / buffer / size / to_writer) must return normally; panics are "
              "caught per call, aborts and hangs are attributed to one program by child-process isolation.",
         note=COMMON_NOTE + " Totality over arbitrary inputs is sampled, not exhaustive.",
         technique="outcome predicate in TLC trace validation over all generated programs",
